@@ -11,7 +11,9 @@ LEVEL = "exploration"
 RULE = ("Hypothesis-generated control schedules: superoperators from {unitary kick, dephasing, amplitude damping, "
         "non-trace-preserving left/right/left-right multiplication, identity}, steps 0..N (first and last included), "
         "pre/post flag, int step or float time (offset <= 0.4 dt from the step, start_time != 0), 1..3 controls stacked "
-        "on the same (step, side); single systems with no or one exact ancilla environment (compute_dynamics) and "
+        "on the same (step, side); single systems with no or one exact ancilla environment (compute_dynamics, record_all on/off, "
+        "compute_dynamics_with_field with one system and with TWO systems carrying different schedules in either order, the "
+        "dynamics reported by compute_gradient_and_dynamics) and "
         "chains of 2..3 sites (PtTebd + ChainControl; uncoupled, two-site coupled, with ancilla process tensors). "
         "Oracle: explicit evolution with the documented semantics (pre: before the record, post: after it, once, in "
         "insertion order), tolerance 1e-10 (chains: 1e-8). Non-trivial: >=2 stacked non-commuting controls, or a "
@@ -72,7 +74,31 @@ def s_single(draw, tier):
     return {"d": d, "N": N, "dt": draw(st.sampled_from([0.1, 0.25, 0.3, 0.7])),
             "t0": draw(st.sampled_from([0.0, 0.35, -1.3, 2.0])),
             "sys": draw(sysgen.sys_spec(d)), "rho0": draw(gens.dm_spec(d)), "env": env,
-            "groups": draw(s_groups(d, N))}
+            "groups": draw(s_groups(d, N)),
+            # mean-field route with a SECOND system that carries another control schedule (or none)
+            "groups2": draw(st.one_of(st.none(), s_groups(d, N))), "second_first": draw(st.booleans())}
+
+
+def _build_control(groups, d, t0, dt):
+    """(Control, reference dict step -> (pre, post) Liouville maps) for a list of control groups"""
+    import oqupy
+    ctl = oqupy.Control(d)
+    ref = {}
+    for g in groups:
+        for j, o in enumerate(g["ops"]):
+            S = ancgen.build_control_op(o, d)
+            kind_j = g["op_kinds"][j] if g["kind"] == "mixed" else g["kind"]
+            if kind_j == "int":
+                ctl.add_single(int(g["step"]), S, post=g["post"])
+            else:
+                ctl.add_single(float(t0 + (g["step"] + g["delta"]) * dt), S, post=g["post"])
+            pre, post = ref.get(g["step"], (None, None))
+            if g["post"]:
+                post = S if post is None else S @ post
+            else:
+                pre = S if pre is None else S @ pre
+            ref[g["step"]] = (pre, post)
+    return ctl, ref
 
 
 def _noncommuting_stack(groups, d):
@@ -151,6 +177,27 @@ def run_single(case):
                 dw = oqupy.compute_dynamics_with_field(mfs, 0.2 + 0.0j, None, dt=dt, num_steps=N, **kwf)
             out.check_close("with-field", np.array(dw.system_dynamics[0].states), want, tol,
                             "compute_dynamics_with_field with controls (field-independent system)")
+            if "groups2" in case:
+                # two systems, each with its own control schedule (the second possibly without controls)
+                g2 = case["groups2"]
+                ctl2, ref2 = _build_control(g2, d, t0, dt) if g2 is not None else (None, {})
+                want2 = A.ref_dynamics(d, envs, rho0, sysgen.ref_props(case["sys"], dt, t0), N, ref2)
+                sysf2 = oqupy.TimeDependentSystemWithField(
+                    lambda t, a: Hc, gammas=[(lambda t, g=l["g0"]: g) for l in spec_s["lind"]],
+                    lindblad_operators=[(lambda t, A_=gens.to_c(l["A0"]): A_) for l in spec_s["lind"]])
+                order = [1, 0] if case["second_first"] else [0, 1]
+                syss, ctls, wants = [sysf, sysf2], [ctl, ctl2], [want, want2]
+                mfs2 = oqupy.MeanFieldSystem([syss[i] for i in order], lambda t, st_, a: 0.3 - 0.1 * a)
+                kw2 = dict(initial_state_list=[rho0, rho0], start_time=t0, control_list=[ctls[i] for i in order],
+                           progress_type="silent")
+                if envs:
+                    dw2 = oqupy.compute_dynamics_with_field(mfs2, 0.2 + 0.0j, [pts[0], pts[0]], **kw2)
+                else:
+                    dw2 = oqupy.compute_dynamics_with_field(mfs2, 0.2 + 0.0j, None, dt=dt, num_steps=N, **kw2)
+                out.label("two-systems:second-" + ("has-controls" if g2 is not None else "no-controls"))
+                for pos, i in enumerate(order):
+                    out.check_close("with-field/two-systems", np.array(dw2.system_dynamics[pos].states), wants[i], tol,
+                                    f"system at position {pos} ({'first' if i == 0 else 'second'} schedule) of a two-system mean-field run")
             if envs and case["d"] == 2:
                 from oqupy.gradient import compute_gradient_and_dynamics
                 psys = oqupy.ParameterizedSystem(
